@@ -72,6 +72,7 @@ class C01(PropCheck):
                 'out-of-flow-lost-at-document-end': float_lost_at_end,
                 'flex-grid-fragmentation-loses-content': grid_item_lost,
                 'float-fragment-duplicated': lambda: corpus_fails('float_fragment_duplicated'),
+                'column-span-loses-following-content': lambda: corpus_fails('column_span_loses'),
                 'footnote-in-columns-lost-or-duplicated': lambda: corpus_fails('footnote_in_columns'),
                 'table-in-columns-duplicates-rows': lambda: corpus_fails('table_in_columns_duplicates_rows')}
 
@@ -120,6 +121,13 @@ def float_lost_at_end():
         '<style>@page{size:240px 13px;margin:2px}html,body{margin:0}body{font-size:6px;line-height:6px}p{margin:0}'
         '</style><div style="float:right;width:50px"><p style="border:2px solid">w1 w2 w3 w4 w5 w6 w7 w8</p></div>'
         '<p style="padding:1px">w9 w10 w11 w12 w13</p>', 13)
+
+
+def column_span_loses():
+    return _words_lost(
+        '<style>@page{size:100px 100px;margin:0}html,body{margin:0}body{font-size:10px;line-height:10px}p{margin:0}'
+        '</style><p>w1</p><div style="columns:3;column-gap:4px"><p style="padding:4px">w2 w3 w4 w5 w6 w7 w8 w9 w10 '
+        'w11 w12 w13 w14</p><p style="column-span:all;break-before:left">w15</p><p>w16 w17 w18</p></div>', 18)
 
 
 def grid_item_lost():
